@@ -28,6 +28,12 @@ let run_case (c : Sexp.t) : string * Sexp.t * Sexp.t option =
     (* C14_compare_spec: two operands, run finished *)
     let spec = match r, ts with Ok _, [_; _] -> Some m | _ -> None in
     "", m, spec
+  | L [A "eval"; A name; ts; ss] ->
+    let r = evaluate fuel (arithop_of name) (terms_of ts) (ss_of ss) in
+    let m = sexp_of_res sexp_of_term r in
+    (* C12_evaluate_is_fold: every finished evaluation *)
+    let spec = match r with Ok _ -> Some m | _ -> None in
+    "", m, spec
   | _ ->
     (match Ops.run_case fuel c with
      | Some r -> r
